@@ -197,7 +197,7 @@ pub fn gen_cfg(r: &mut Rng, o: &GenOpts) -> Cfg {
         ctime,
         lang,
         // builder aliases (set_video_track / set_audio_track) are as good as video() / audio()
-        path: if r.chance(1, 4) { r.below(4) as u8 | if r.chance(1, 3) { 8 } else { 0 } | if r.chance(1, 3) { 16 } else { 0 } } else { 0 },
+        path: if r.chance(1, 4) { r.below(4) as u8 | if r.chance(1, 3) { 8 } else { 0 } | if r.chance(1, 3) { 16 } else { 0 } | if r.chance(1, 3) { 32 } else { 0 } } else { 0 },
     }
 }
 
@@ -251,6 +251,21 @@ pub fn video_timeline(r: &mut Rng, n: usize, reorder: bool, start: f64) -> Vec<(
     for (k, &di) in order.iter().enumerate() {
         pts[di] = grid(k + delay);
     }
+    // sometimes the two timestamps of a frame carry independent sub-tick noise (capture clocks):
+    // they may then round to neighbouring ticks, and the offset of that frame is +-1, not 0
+    let mut dts = dts;
+    if r.chance(1, 6) {
+        for i in 0..n {
+            if r.chance(1, 2) {
+                let j = |r: &mut Rng, v: f64| {
+                    let d = (r.f64_unit() * 0.9 - 0.45) / 90_000.0;
+                    if v + d < 0.0 { v + d.abs() } else { v + d }
+                };
+                pts[i] = j(r, pts[i]);
+                dts[i] = j(r, dts[i]);
+            }
+        }
+    }
     // sometimes the whole decode timeline runs LATER than the presentation timeline (negative
     // composition offsets from the first frame on: only decode order has to increase)
     if r.chance(1, 8) {
@@ -281,7 +296,12 @@ fn gen_history_inner(r: &mut Rng, o: &GenOpts, cfg: Cfg) -> History {
     let round = r.chance(o.round_count_pm, 1000);
     let nv = if round {
         cfg.audio = None;
-        *r.pick(&[255usize, 256, 257, 359, 360, 361, 512, 720, 1023, 1024, 1025, 1080, 2048, 3072, 4096])
+        if r.chance(1, 50) {
+            // sample counts around the 16-bit boundary
+            *r.pick(&[65_535usize, 65_536, 65_537])
+        } else {
+            *r.pick(&[255usize, 256, 257, 359, 360, 361, 512, 720, 1023, 1024, 1025, 1080, 2048, 3072, 4096])
+        }
     } else {
         match r.below(12) {
             0 => 0,
@@ -498,6 +518,12 @@ fn gen_history_inner(r: &mut Rng, o: &GenOpts, cfg: Cfg) -> History {
             let vk = if r.chance(1, 2) { FrameKind::KeyCfg } else { FrameKind::Delta };
             let valid_v = video_frame(r, cfg.vcodec, vk, 12, false);
             let next_ts = |r: &mut Rng, p: Option<f64>| p.map(|x| x + 0.001 + r.f64_unit() * 0.01).unwrap_or(0.0);
+            // calls refused for their payload, now and then with a timestamp far beyond
+            // everything accepted before or after (seconds, minutes, more than 2^32 ticks)
+            let refused_ts = |r: &mut Rng, p: Option<f64>| {
+                let t = next_ts(r, p);
+                if r.chance(1, 4) { t + *r.pick(&[7.5f64, 1000.0, 40_000.0, 50_000.0]) } else { t }
+            };
             let op = match r.below(13) {
                 12 => {
                     // composition offset exactly at / next to the ends of the signed 32-bit field
@@ -520,14 +546,14 @@ fn gen_history_inner(r: &mut Rng, o: &GenOpts, cfg: Cfg) -> History {
                         Some(a) if r.chance(1, 2) => bad_audio_frame(r, a),
                         _ => hostile_bytes(r, &good),
                     };
-                    Op::wa(next_ts(r, last_a.or(last_v)), bad)
+                    Op::wa(refused_ts(r, last_a.or(last_v)), bad)
                 }
                 6 => Op::EncodeVideo { data: hostile_bytes(r, &valid_v), dur_ms: *r.pick(&[0u32, 1, 33, u32::MAX]) },
                 7 => Op::EncodeAudio { data: audio.as_ref().map(|a| if r.chance(1, 2) { audio_frame(r, a, 8) } else { bad_audio_frame(r, a) }).unwrap_or_else(|| vec![0]), samples: *r.pick(&[0u32, 960, 1024, u32::MAX]) },
                 8 => {
                     // delta frame / key-without-config where a config key frame is needed, or just a dup
                     let k = if r.chance(1, 2) { FrameKind::Delta } else { FrameKind::KeyNoCfg };
-                    Op::wv(next_ts(r, last_v), video_frame(r, cfg.vcodec, k, 10, false), r.chance(1, 2))
+                    Op::wv(refused_ts(r, last_v), video_frame(r, cfg.vcodec, k, 10, false), r.chance(1, 2))
                 }
                 9 => match next {
                     // the next valid call with a broken timestamp relation: replay previous ts
@@ -536,7 +562,7 @@ fn gen_history_inner(r: &mut Rng, o: &GenOpts, cfg: Cfg) -> History {
                     _ => Op::wv(-1.0, valid_v, true),
                 },
                 10 => Op::wa(last_v.map(|v| v * 0.25).unwrap_or(0.0), audio.as_ref().map(|a| audio_frame(r, a, 6)).unwrap_or_else(|| vec![9])),
-                _ => Op::wv(next_ts(r, last_v), Vec::new(), true),
+                _ => Op::wv(refused_ts(r, last_v), Vec::new(), true),
             };
             out.push(op);
         };
